@@ -195,13 +195,17 @@ func capPreCount(swampObj swamp.Swamp, predicate func(treasureForCount) bool) (i
 	adapted := func(t treasure.Treasure) bool {
 		return predicate(t)
 	}
-	count := swampObj.CountMatchingTreasures(adapted)
-	verifhook.Point("gateway.capPreCount.counted", int64(count))
 	// Cap-bearing patch flows serialise on swamp.capMu — but the swamp
 	// interface does not expose it directly. Acquire it via the
 	// public LockCapMu / UnlockCapMu accessors added on the swamp
 	// interface so the gateway can hold it for the whole batch.
+	//
+	// The lock must be taken BEFORE counting: counting first would let two
+	// concurrent batches both observe the same currentMatching and jointly
+	// overshoot Cap.MaxMatching once they run one after the other.
 	swampObj.LockCapMu()
+	count := swampObj.CountMatchingTreasures(adapted)
+	verifhook.Point("gateway.capPreCount.counted", int64(count))
 	return count, swampObj.UnlockCapMu
 }
 
